@@ -1,9 +1,12 @@
 import OrsoVerif.Model.PyVal
 import OrsoVerif.Model.Kernels
 import OrsoVerif.Model.CallSites
-/-! Driver glue for C10. -/
+import OrsoVerif.Generated.KernelFns
+/-! Driver glue for C10.  The three kernels are run through their statement-level translations
+(`Gen.KernelFns`, regenerated from the working tree's `compiled.pyx`), which `Props/C10.lean` proves equal to the
+models of `Model/Kernels.lean`. -/
 namespace Drv.C10
-open Kernels CallSites
+open Kernels CallSites KernelSem
 
 def decodeRow : PyVal → Option (RowObj PyVal)
   | .list [.bool t, .list cells] => some ⟨t, cells⟩
@@ -46,27 +49,31 @@ def handle (op : String) (args : List PyVal) : Option (List PyVal) :=
   | "collect", [.list rows, .list cols, .int limit] => do
     let rows ← rows.mapM decodeRow
     let cols ← asInts cols
-    match collect rows cols limit with
+    match toOutcome (Gen.KernelFns.collect_cython PyVal.none rows cols limit) with
     | .ok m => pure [.str "ok", .list (m.map .list)]
     | .raises c => pure [.str "raises", .str c]
     | .oob => pure [.str "oob"]
   | "width", [.list lens] => do
     let lens ← decodeLens lens
-    pure [.int (dataWidth lens)]
+    match Gen.KernelFns.calculate_data_width (fun (n : Nat) => n) lens with
+    | .ok w => pure [.int w]
+    | .error (.raises c) => pure [.str "raises", .str c]
+    | .error .oob => pure [.str "oob"]
   | "extract", [.list fields, .dict d] => do
     let fields ← asStrs fields
-    match extractLoop .none fields d with
-    | some r => pure [.list r]
-    | none => pure [.str "oob"]
+    match Gen.KernelFns.extract_dict_columns PyVal.none d fields with
+    | .ok r => pure [.list r]
+    | .error (.raises c) => pure [.str "raises", .str c]
+    | .error .oob => pure [.str "oob"]
   | "pcollect", [.list names, .list rows, .list cols, .bool single, limit] => do
     let names ← asStrs names
     let rows ← rows.mapM decodeRow
     let cols ← asRefs cols
     let limit ← (match limit with | .none => some none | .int l => some (some l) | _ => none)
     pure (encPub (publicCollect names rows cols single limit))
-  | "rownew", [.list fields, .bool tuplesOnly, .dict d] => do
+  | "rownew", [.list fields, .bool tuplesOnly, .bool exact, .dict d] => do
     let fields ← asStrs fields
-    match rowNew .none (createClass fields tuplesOnly) (.dict d) with
+    match rowNew .none (createClass fields tuplesOnly) (.dict exact d) with
     | some r => pure [.str "some", .list r]
     | none => pure [.str "none"]
   | "rownew", [.list fields, .bool tuplesOnly, .list t] => do
